@@ -604,6 +604,9 @@ def ravel_dimensions(
 
     if linear_dimension is None:
         linear_dimension = find_unused_dimension(data_array, 'index')
+    elif linear_dimension in existing_dims:
+        raise ValueError(
+            f"Linear dimension {linear_dimension!r} already exists in the data array")
     new_dims = existing_dims + (linear_dimension,)
 
     coords = {
